@@ -71,6 +71,12 @@ def _forms(name, default_cs, new_names=()):
         ('regrouped', '(role:a or role:b) and role:c'),
         ('reordered', 'role:b and role:c or role:a'),
     ]
+    if default_cs:
+        # list syntax takes every element as ONE check (no tokenising): an
+        # element spelled like the printed default is a single check of an
+        # odd kind, not the default
+        from oslo_policy import _parser
+        forms.append(('lookalike', [[str(_parser.parse_rule(default_cs))]]))
     for nn in new_names:
         forms.append(('alias:' + nn, 'rule:%s' % nn))
         forms.append(('alias:(%s)' % nn, '( rule:%s )' % nn))
@@ -94,17 +100,19 @@ def _file_for(ctx, kind, tool, small=False):
             rules[name] = val
     if kind == 'plain':
         pick('m', 'role:a or role:b and role:c',
-             allow=['absent', 'default', 'regrouped'] if small else
-             ['absent', 'default', 'variant', 'regrouped', 'reordered'])
+             allow=['absent', 'default', 'regrouped', 'lookalike'] if small
+             else ['absent', 'default', 'variant', 'regrouped', 'reordered',
+                   'lookalike'])
     if small:
         pick('p', 'role:p', allow=['absent', 'default', 'variant',
                                    'different', 'list', 'list-blank'])
-        pick('q', 'role:q or role:x', allow=['absent', 'variant', 'dquoted'])
+        pick('q', 'role:q or role:x', allow=['absent', 'variant', 'dquoted',
+                                             'lookalike'])
         pick('u', None, allow=['absent', 'list', 'dquoted', 'unicode'])
     else:
         pick('p', 'role:p')
         pick('q', 'role:q or role:x', allow=['absent', 'default', 'variant',
-                                             'list', 'dquoted'])
+                                             'list', 'dquoted', 'lookalike'])
         pick('u', None, allow=['absent', 'different', 'list', 'dquoted',
                                'unicode'])
     if kind in ('renamed', 'all'):
